@@ -218,6 +218,8 @@ def run(chk):
                 p = plant(t, extra, node, parent, fault, salt=n)
                 if p:
                     cases.append((len(cases), t, node["id"], fault.split(":")[0]) + p)
+    if not quick and len(cases) > 500000:
+        cases = [(i,) + c[1:] for i, c in enumerate(r.sample(cases, 500000))]       # bounds the thorough tier; the sample is seeded
     log("C20: %d (tree, fault, position) cases" % len(cases))
     refs = T.expect_forms(chk, [("r%d" % c[0], c[6]) for c in cases])
     reqs = []
